@@ -8,9 +8,9 @@ cd $wt || exit 2
 export CARGO_TARGET_DIR=$wt/target
 rm -rf $crate/tests
 mkdir -p $crate/tests; cp $seed/demo.rs $crate/tests/demo.rs
-echo "== demo on unmodified code"; cargo test -p $crate --test demo --offline 2>&1 | grep -E "^test result|panicked|error" | head -5
+echo "== demo on unmodified code"; cargo test -p $crate --test demo --offline ${DEMOFLAGS:-} 2>&1 | grep -E "^test result|panicked|error" | head -5
 git apply $seed/patch.diff || { echo "PATCH DOES NOT APPLY"; exit 2; }
-echo "== demo with change"; cargo test -p $crate --test demo --offline 2>&1 | grep -E "^test result|error\[" | head -5
+echo "== demo with change"; cargo test -p $crate --test demo --offline ${DEMOFLAGS:-} 2>&1 | grep -E "^test result|error\[" | head -5
 rm -rf $crate/tests
 echo "== suite with change"; cargo test --workspace --no-fail-fast --offline 2>&1 | grep -E "^test result|FAILED|error\[" | head -8
 echo "== no-default-features build"; cargo build --workspace --no-default-features --offline 2>&1 | grep -E "^error|Finished" | head -3
